@@ -208,6 +208,17 @@ impl ReadXml for EmptyReply {
                 }
                 (ResolveResult::Bound(ns), Event::Start(tag))
                     if ns == xmlns::BASE
+                        && tag.local_name().as_ref() == b"ok"
+                        && this.is_none()
+                        && errors.is_empty() =>
+                {
+                    // `<ok></ok>` is the same element as `<ok/>`
+                    tracing::debug!(?tag);
+                    _ = reader.read_to_end(tag.to_end().name())?;
+                    this = Some(Self::Ok);
+                }
+                (ResolveResult::Bound(ns), Event::Start(tag))
+                    if ns == xmlns::BASE
                         && tag.local_name().as_ref() == b"rpc-error"
                         && this.is_none() =>
                 {
